@@ -272,13 +272,23 @@ func Worker(p Property, e *Env, shard, shards int, out string) int {
 			o2 := opts
 			o2.KeepTrace = true
 			fin := ExecTape(p, ReplayTape(best), o2)
+			flaky := false
 			if classOf(fin) != want {
 				// shrinking lost it: fall back to the original tape
 				best = orig
 				fin = ExecTape(p, ReplayTape(best), o2)
 				if classOf(fin) != want {
-					part.Infra = fmt.Sprintf("run %d seed %d: violation %s does not reproduce from its own tape in-process (harness nondeterminism)", run, seed, want)
-					return finish(2)
+					// not even its own tape reproduces it at once: either the harness is
+					// nondeterministic (the self-test says it is not) or the code under test is.
+					// Retry; a violation that shows up again is reported as flaky.
+					for try := 0; try < 12 && classOf(fin) == ""; try++ {
+						fin = ExecTape(p, ReplayTape(best), o2)
+					}
+					if classOf(fin) == "" {
+						part.Infra = fmt.Sprintf("run %d seed %d: violation %s does not reproduce from its own tape in-process in 14 attempts", run, seed, want)
+						return finish(2)
+					}
+					flaky = true
 				}
 			}
 			if MatchFinding(e.Findings, fin.Violation) != nil {
@@ -289,7 +299,10 @@ func Worker(p Property, e *Env, shard, shards int, out string) int {
 			rf := &ReplayFile{
 				Property: p.ID(), Format: 1, VerifSeed: e.Seed, RunIndex: run, RunSeed: seed, Tier: e.Tier,
 				Tape: best, OrigLen: len(orig), ShrinkExec: execs, Violation: fin.Violation,
-				Trace: capTrace(fin.Trace, 400), TraceHash: fmt.Sprintf("%016x", fin.TraceHash),
+				Trace: capTrace(fin.Trace, 400), TraceHash: fmt.Sprintf("%016x", fin.TraceHash), Flaky: flaky,
+			}
+			if flaky {
+				rf.Note = "the violation does not reproduce on every execution of this tape: the code under test behaves nondeterministically on this history (for instance by ranging over a map); replay retries and compares the invariant only"
 			}
 			dir := filepath.Join(e.Home, "replays")
 			os.MkdirAll(dir, 0o755)
@@ -334,6 +347,18 @@ func Replay(p Property, e *Env, path string) int {
 		}
 	} else {
 		res = ExecTape(p, ReplayTape(rf.Tape), RunOpts{Tier: rf.Tier, KeepTrace: true})
+		if rf.Flaky {
+			for try := 0; try < 40 && res.Infra == "" && res.Violation == nil; try++ {
+				res = ExecTape(p, ReplayTape(rf.Tape), RunOpts{Tier: rf.Tier, KeepTrace: true})
+			}
+			if res.Violation != nil {
+				fmt.Println("replay: flaky violation (the code under test is nondeterministic on this history); reproduced by retrying, traces are not compared")
+				rf.TraceHash = ""
+				if rf.Violation != nil {
+					rf.Violation.Invariant = res.Violation.Invariant
+				}
+			}
+		}
 	}
 	if res.Infra != "" {
 		fmt.Fprintf(os.Stderr, "replay: infra: %s\n", res.Infra)
@@ -539,29 +564,47 @@ func Check(p Property, e *Env) int {
 			return 2
 		}
 	}
-	// 4. candidates: verify in a fresh process before believing them
-	var confirmed []string
+	// 4. candidates: verify in a fresh process before believing them. A candidate that does not
+	// reproduce is retried a few times (the code under test may itself be nondeterministic, see
+	// ReplayFile.Flaky) and, if it still does not, is listed as unconfirmed; the check exits 2
+	// only if no candidate at all could be confirmed.
+	var confirmed, unconfirmed []string
 	for _, pt := range parts {
 		if pt.Candidate == "" {
 			continue
 		}
-		cmd := exec.Command(e.Self, "replay", id, pt.Candidate)
-		b, err := cmd.CombinedOutput()
-		code := 0
-		if err != nil {
-			if ee, ok := err.(*exec.ExitError); ok {
-				code = ee.ExitCode()
-			} else {
-				code = 2
+		ok := false
+		var last string
+		for try := 0; try < 6 && !ok; try++ {
+			cmd := exec.Command(e.Self, "replay", id, pt.Candidate)
+			b, err := cmd.CombinedOutput()
+			code := 0
+			if err != nil {
+				if ee, isExit := err.(*exec.ExitError); isExit {
+					code = ee.ExitCode()
+				} else {
+					code = 2
+				}
+			}
+			last = string(b)
+			if code == 1 && strings.Contains(last, "VIOLATION property="+id) {
+				ok = true
+				if try > 0 {
+					fmt.Printf("note: %s reproduced only at attempt %d: the code under test is nondeterministic on this history\n", pt.Candidate, try+1)
+				}
+				fmt.Print(lastLines(last, 40))
 			}
 		}
-		if code == 1 && strings.Contains(string(b), "VIOLATION property="+id) {
+		if ok {
 			confirmed = append(confirmed, pt.Candidate)
-			fmt.Print(lastLines(string(b), 40))
 		} else {
-			fmt.Printf("INFRA %s: candidate %s did not reproduce in a fresh process (exit %d):\n%s\n", id, pt.Candidate, code, lastLines(string(b), 10))
-			return 2
+			unconfirmed = append(unconfirmed, pt.Candidate)
+			fmt.Printf("unconfirmed candidate %s (did not reproduce in 6 fresh processes):\n%s\n", pt.Candidate, lastLines(last, 4))
 		}
+	}
+	if len(confirmed) == 0 && len(unconfirmed) > 0 {
+		fmt.Printf("INFRA %s: %d candidate violation(s), none reproduced in a fresh process\n", id, len(unconfirmed))
+		return 2
 	}
 	ev.Violations = len(confirmed)
 	merged := writeEvidence(e, ev, desc, pre, parts, start, knownHits, det)
